@@ -461,3 +461,133 @@ func c09Reverse(t *tr.Writer, id int, c c09Case) {
 		revForced += forced + g.Forced
 	}
 }
+
+// c09RealFns: concurrent callers on one client (one connection) call different functions of a real
+// service at the same time; every function marks its answer with its own name, so that a request run
+// through another caller's function (or context) shows in the response.
+func c09RealFns(t *tr.Writer, c c09Case) {
+	svc := core.NewService()
+	const nfn = 8
+	for i := 0; i < nfn; i++ {
+		i := i
+		svc.AddFunction(func(ctx context.Context, payload string) string {
+			cc, n, ok := muxParse([]byte(payload))
+			if ok {
+				t.Emit(tr.Rec{"ev": "answer", "c": cc, "n": n})
+			}
+			// the method the service context of this very request names
+			name := ""
+			if sc := core.GetServiceContext(ctx); sc != nil && sc.Method != nil {
+				name = sc.Method.Name()
+			}
+			return fmt.Sprintf("f%d|%s|%s", i, name, payload)
+		}, fmt.Sprintf("fn%d", i))
+	}
+	env, err := rpcenv.Start(c.Kind, svc, c.Seed%2 == 0)
+	if err != nil {
+		t.Emit(tr.Rec{"ev": "setup-failed", "err": err.Error()})
+		return
+	}
+	defer env.Close()
+	client := core.NewClient(env.URL)
+	defer client.Abort()
+	var wg sync.WaitGroup
+	for cc := 1; cc <= c.Callers; cc++ {
+		wg.Add(1)
+		go func(cc int) {
+			defer wg.Done()
+			fn := fmt.Sprintf("fn%d", cc%nfn)
+			for n := 1; n <= c.Calls; n++ {
+				t.Emit(tr.Rec{"ev": "callB", "c": cc, "n": n})
+				t0 := time.Now()
+				res, err := client.Invoke(fn, []interface{}{muxPayload(cc, n)})
+				r := muxRet{kind: "resp", rc: -1, rn: -1}
+				if err != nil {
+					r = muxRet{kind: "err", err: err.Error()}
+				} else if len(res) == 1 {
+					if s, ok := res[0].(string); ok {
+						// the answer must come from this caller's function, under this caller's method name
+						want := fmt.Sprintf("f%d|%s|", cc%nfn, fn)
+						if len(s) > len(want) && s[:len(want)] == want {
+							if rc, rn, ok := muxParse([]byte(s[len(want):])); ok {
+								r.rc, r.rn = rc, rn
+							}
+						} else {
+							r.err = "answered by " + s[:minInt(len(s), 24)]
+						}
+					}
+				}
+				t.Emit(tr.Rec{"ev": "ret", "c": cc, "n": n, "kind": r.kind, "rc": r.rc, "rn": r.rn, "ms": int(time.Since(t0) / time.Millisecond), "bound": 5000, "err": r.err})
+			}
+		}(cc)
+	}
+	wg.Wait()
+}
+
+func minInt(a, b int) int {
+	if a < b {
+		return a
+	}
+	return b
+}
+
+// c10ReverseGiveup: reverse calls that time out while the provider is away must not stay queued: when the
+// provider polls again it is handed nothing (the queue is the reverse calls' pending table).
+func c10ReverseGiveup(t *tr.Writer, c c10Case) {
+	cc := c09Case{Kind: c.Kind, Mode: "rcall-giveup", Callers: 3, Calls: 1, Seed: 1}
+	e, err := newRevEnv(t, cc, 60*time.Millisecond, 2*time.Second, nil)
+	if err != nil {
+		t.Emit(tr.Rec{"ev": "setup-failed", "err": err.Error()})
+		return
+	}
+	defer e.close()
+	sp := &revProvider{}
+	e.client.UseService(sp)
+	var wg sync.WaitGroup
+	for k := 1; k <= 3; k++ {
+		wg.Add(1)
+		go func(k int) {
+			defer wg.Done()
+			e.invokeCtx(k, 1, 30*time.Millisecond, true, 1000)
+		}(k)
+	}
+	wg.Wait()
+	time.Sleep(10 * time.Millisecond)
+	stale := 0
+	for i := 0; i < 2; i++ {
+		calls, err := sp.Begin() // returns at the idle time-out when nothing is queued
+		if err != nil {
+			t.Emit(tr.Rec{"ev": "setup-failed", "err": "scripted poll: " + err.Error()})
+			return
+		}
+		stale += len(calls)
+	}
+	t.Emit(tr.Rec{"ev": "quiesce", "pending": stale, "leak": 0, "pooled": 0})
+	// and the caller stays usable: a call made while the provider polls is answered
+	done := make(chan struct{})
+	go func() { defer close(done); e.invokeCtx(9, 1, 2*time.Second, false, 2500) }()
+	for i := 0; i < 20; i++ {
+		calls, err := sp.Begin()
+		if err != nil {
+			break
+		}
+		answered := false
+		for _, cl := range calls {
+			if len(cl) == 3 {
+				if args, ok := cl[2].([]interface{}); ok && len(args) == 1 {
+					a, _ := args[0].(string)
+					if cn, n, ok := muxParse([]byte(a)); ok {
+						t.Emit(tr.Rec{"ev": "answer", "c": cn, "n": n})
+					}
+					sp.End([][]interface{}{{revInt(cl[0]), a, ""}})
+					answered = true
+				}
+			}
+		}
+		if answered {
+			break
+		}
+	}
+	<-done
+	t.Emit(tr.Rec{"ev": "fresh", "ok": true})
+}
